@@ -3,7 +3,9 @@
 S=/verif/seeded/$1; T=${2:-quick}
 if [ -n "$(git -C /repo status --porcelain)" ]; then echo "/repo has uncommitted changes: commit them first (the undo step would discard them)"; exit 3; fi
 P=$(python3 -c "import json;print(json.load(open('$S/meta.json'))['property'])")
-git -C /repo apply $S/patch.diff 2>/dev/null || git -C /repo apply -C1 $S/patch.diff 2>/dev/null || (cd /repo && patch -p1 -F3 -s < $S/patch.diff) || exit 2
+# strict application only: a fuzzy `patch -F3` once placed a hunk inside dead code after a later fix commit had changed
+# the context, and the check then (rightly) passed on a tree that was not broken at all
+git -C /repo apply $S/patch.diff 2>/dev/null || git -C /repo apply -C2 $S/patch.diff 2>/dev/null || { echo "$1: patch does not apply to the current tree (rebase the seed)"; exit 2; }
 cp /verif/evidence/$P.json /tmp/seedrun_ev_$P.json 2>/dev/null
 (cd /verif && bin/vcheck check --property $P --tier $T) > /tmp/seedrun_$1.log 2>&1; RC=$?
 cp /tmp/seedrun_ev_$P.json /verif/evidence/$P.json 2>/dev/null
